@@ -99,15 +99,20 @@ def srcVal (base : Nat) (f : Field) : Src → FieldVal
     | .box => .box (base + f.val)
     | .slice => if m.toList.isEmpty then .nil else .slice (base + f.val) m.toList.length m.toList.length
 
+def fieldOf (n : Nat) : Option Field := if h : n < nFields then some ⟨n, h⟩ else none
+
 /-- append a record; fresh objects get the ids `next + f` -/
 def Heap.addOwner (h : Heap) (parent : Option Nat) (src : Field → Src) : Heap :=
   { count := h.count + 1
     owner := fun i => if i = h.count then ⟨parent, fun f => srcVal h.next f (src f)⟩ else h.owner i
     obj := fun id =>
-      if hlt : h.next ≤ id ∧ id - h.next < nFields then
-        match src ⟨id - h.next, hlt.2⟩ with
-        | .fresh m => norm (kind ⟨id - h.next, hlt.2⟩) m
-        | _ => h.obj id
+      if h.next ≤ id then
+        match fieldOf (id - h.next) with
+        | some f =>
+          match src f with
+          | .fresh m => norm (kind f) m
+          | _ => h.obj id
+        | none => h.obj id
       else h.obj id
     next := h.next + nFields }
 
@@ -141,15 +146,18 @@ def Heap.updBox (h : Heap) (o : Nat) (f : Field) (g : AMap → AMap) : Heap :=
   | .box id => h.setObj id (g (h.obj id))
   | _ => h.putFresh o f (g [])
 
+/-- where field `f` of a record derived from `w` comes from -/
+def srcOf (h : Heap) (t : Table) (w : HOwner) (f : Field) : Src :=
+  match t f with
+  | .assigned => .share (w.fld f)
+  | .fresh => .fresh (h.absVal (w.fld f))
+  | .absent => .zero
+
 def stepH (grow : Nat → Nat → Nat) (h : Heap) : Prim → Heap
   | .newClient => h.addOwner none fun f => .fresh (initVal f)
   | .derive src t req =>
     if src < h.count then
-      h.addOwner (if req then some src else none) fun f =>
-        match t f with
-        | .assigned => .share ((h.owner src).fld f)
-        | .fresh => .fresh (h.absVal ((h.owner src).fld f))
-        | .absent => .zero
+      h.addOwner (if req then some src else none) (srcOf h t (h.owner src))
     else h
   | .set o f k vs =>
     if kind f = .box ∧ o < h.count then h.updBox o f (·.set k vs) else h
